@@ -126,8 +126,8 @@ def seeded(ids: list[str], tier: str = "quick") -> int:
             want = meta.get("expected_exit", 1)
             if want == 0:
                 noted = any(ln.startswith("NOTE: recorded-not-judged") for ln in out.splitlines())
-                print(f"  (by design not judged: expected exit 0; recorded in evidence: {noted})")
-                if rc != 0 or not noted:
+                print(f"  (not reported by design / out of scope: expected exit 0; NOTE line printed: {noted})")
+                if rc != 0 or (meta.get("expect_note", True) and not noted):
                     bad += 1
             elif rc != 1 or not nviol:
                 bad += 1
